@@ -24,7 +24,7 @@ class C19(Check):
             'that are multiples of the sampling period P in {0.5 s, 1 s}; a discrete trace of n <= 12 samples is evaluated by the discrete-time monitor and, as '
             'a step signal changing only at multiples of P, by the dense-time monitor; for every k with k + horizon < n the dense value at k*P must equal the '
             'discrete value at k; both are also compared with the models (rho, Dn); non-trivial = temporal operator and non-empty settled region; '
-            'distinct by (formula, trace, P)')
+            'plus bounded operators with windows of 3-6 periods over ramp-shaped traces of 8-18 samples; distinct by (formula, trace, P)')
 
     def gen_cases(self, rng, tier):
         cases = []
@@ -38,6 +38,26 @@ class C19(Check):
             nv = need_vars(f, nv)
             n = rng.choice([1, 2, 3, 5, 8, 12])
             cases.append({'f': f, 'n': n, 'nv': nv, 'cols': fml.gen_trace(rng, nv, n), 'P': P})
+        # wide windows over ramp-shaped signals (runs of rising / falling values): the sliding-window algorithms have to
+        # discard several dominated entries at once
+        for i in range(nrand // 3):
+            P = rng.choice([2, 4])
+            w = rng.randint(3, 6)
+            b = rng.choice([0, 0, 1, 2])
+            X = ('pred', rng.choice(['geq', 'leq']), ('var', 0), ('const', rng.randint(0, 3)))
+            f = (rng.choice(['evt', 'alwt', 'oncet', 'histt']), b, b + w, X)
+            if rng.random() < 0.3:
+                f = (rng.choice(['evt', 'alwt', 'oncet', 'histt']), 0, rng.randint(1, 2), f)
+            n = rng.randint(8, 18)
+            col, v = [], rng.randint(-4, 6)
+            while len(col) < n:
+                step = rng.choice([1, 1, -1, -1, 0])
+                for _ in range(rng.randint(2, 5)):
+                    v = max(-9, min(9, v + step))
+                    col.append(v)
+                if rng.random() < 0.4:
+                    v = rng.randint(-6, 8)
+            cases.append({'f': f, 'n': n, 'nv': 1, 'cols': [col[:n]], 'P': P})
         return cases
 
     def dense_f(self, c):
